@@ -331,6 +331,10 @@ func runC15(c *Ctx) {
 				ns = append(ns, v.Name)
 				vs = append(vs, "{}")
 			}
+			if rd.Chance(1, 3) {
+				// a statement with a trailing comment directly above the annotation line
+				emit(fmt.Sprintf("local pad%d = %d -- running total", i, i))
+			}
 			emit("---@type " + strings.Join(ts, ", "))
 			emit(fmt.Sprintf("local %s = %s", strings.Join(ns, ", "), strings.Join(vs, ", ")))
 			if k > 1 {
